@@ -372,6 +372,52 @@ def main(chk):
         cu, cw = float(upd['st']['mid']['leaf']['cnt']), float(wupd['st']['mid']['leaf']['cnt'])
         if cu != cw:
           chk.violation(key, f'returned counter {cu}, the same program without the lift {cw}', {})
+  # ---- a module with two sub-module fields declared in non-alphabetical order (second, first): lifted autodiff differentiates the
+  # function of *its own* variables (each field keeps its scope)
+  class Sc(nn.Module):
+    @nn.compact
+    def __call__(self, x):
+      return x * self.param('w', lambda k: jnp.asarray(1.0))
+
+  class Pairwise(nn.Module):
+    second: nn.Module
+    first: nn.Module
+
+    def __call__(self, x):
+      return self.first(x) * 10.0 + self.second(x * x)
+
+  class PTop(nn.Module):
+    mode: str
+
+    @nn.compact
+    def __call__(self, x):
+      m = Pairwise(Sc(name='second'), Sc(name='first'), name='pair')
+      f = lambda mm, a: mm(a)
+      if self.mode == 'plain':
+        return m(x)
+      if self.mode == 'value_and_grad':
+        return nn.value_and_grad(f, m, x)
+      y, bwd = nn.vjp(f, m, x, multi_scope=True)
+      return y, bwd(jnp.ones_like(y))
+  pvars = {'params': {'first': {'w': jnp.asarray(3.0)}, 'second': {'w': jnp.asarray(5.0)}}}
+  xq = jnp.asarray(2.0)
+  want_y = 3.0 * 2.0 * 10.0 + 5.0 * 4.0
+  want_dx = 30.0 + 5.0 * 2 * 2.0
+  for mode in ('value_and_grad', 'vjp(multi_scope)'):
+    key = f'C07:module-fields-declared-second-first:{mode}'
+    chk.count(key)
+    try:
+      out = PTop(mode).apply(pvars, xq)
+      gvar = None
+      if mode == 'value_and_grad':
+        y, dx = float(out[0]), float(jax.tree_util.tree_leaves(out[1])[0])
+      else:
+        y, cots = out
+        y, dx = float(y), float(jax.tree_util.tree_leaves(cots[-1])[0])
+      if (y, dx) != (want_y, want_dx):
+        chk.violation(key, f'nn.{mode}: value {y}, d/dx {dx}; jax autodiff of the pure function gives {want_y}, {want_dx}', {})
+    except Exception as e:
+      chk.violation(key, f'raised {type(e).__name__}: {str(e)[:200]}', {})
   chk.sample({'spec': 'LiftDiff', 'case': res['exports'][0]})
   chk.cov['configurations'] = n
   chk.assumptions.append('gradient values are compared with the specification\'s exact integers and with jax.vjp of the pure apply function')
